@@ -1,2 +1,4 @@
 pub mod lang;
 pub mod seqmodel;
+pub mod rulematch;
+pub mod unicode_tables;
